@@ -21,8 +21,7 @@ Print Assumptions c15_extraction_covers_lookups_refuted.
     abstract syntax, all caller data and every [int(str)] function, each
     catalog call [tc] that a render makes on behalf of a translate tag whose
     context is a string literal or absent, or of a translation filter applied
-    to string literals, for a reportable message (anything but gettext("") /
-    pgettext(c, "")), is reported by [extract_from_template] as a tuple with
+    to string literals, is reported by [extract_from_template] as a tuple with
     the same function family, message id, plural and context ([m] is the
     call's message: [mtext_of_call]) and with the line number of the
     originating tag / expression.  [count] is never restricted. *)
@@ -32,7 +31,6 @@ Theorem c15_extraction_covers_lookups_partial :
   In tc (fst (render pyint d t)) ->
   tc_lit tc = true ->
   mtext_of_call (tc_call tc) = Some m ->
-  reportable m = true ->
   exists l cs,
     line_number (t_source t) (tc_pos tc) = Ok l /\
     In {| mt_line := l; mt_msg := m; mt_comments := cs |} ms.
@@ -60,15 +58,13 @@ Theorem c15_translate_call_is_reported_message :
 Proof. exact tr_call_literal. Qed.
 Print Assumptions c15_translate_call_is_reported_message.
 
-(** The guard [reportable] cannot be dropped: a translate tag with an empty
-    block and no plural block looks up the id "" (the catalog header) and
-    nothing is extracted for it. *)
-Theorem c15_empty_id_lookup_not_extracted :
-  exists t tc,
-    In tc (fst (render (fun _ => None) [] t)) /\ tc_lit tc = true /\
-    tc_call tc = CGettext (Some []) /\ extract t = Ok [].
-Proof. exact empty_id_lookup_not_extracted. Qed.
-Print Assumptions c15_empty_id_lookup_not_extracted.
+(** An empty translate tag makes no lookup and nothing is extracted for it, so
+    no guard on the message id is needed. *)
+Theorem c15_empty_tag_makes_no_lookup :
+  fst (render (fun _ => None) [] empty_block_template) = []
+  /\ extract empty_block_template = Ok [].
+Proof. exact empty_tag_makes_no_lookup. Qed.
+Print Assumptions c15_empty_tag_makes_no_lookup.
 
 (** Translator comments.  Split the visit of a template at any message: the
     tuples after it are those of the remaining events run from an EMPTY comment
